@@ -309,6 +309,6 @@ def run(ctx):
     )
     # CTE-elimination focus: always a diamond (shared node, consumers that are twins / ask for different column subsets)
     ccfg = dict(cfg)
-    ccfg.update({"shape_prob": 1.0, "narrowing_tails": True, "concat_perm_prob": 0.15, "order_twin_prob": 0.25})
-    ctx.campaign("cte_focus", gen.programs(ccfg), lambda case: oracle(case, "cte"), max_examples=ctx.n(120, 16000))
+    ccfg.update({"shape_prob": 1.0, "narrowing_tails": True, "concat_perm_prob": 0.15, "order_twin_prob": 0.4})
+    ctx.campaign("cte_focus", gen.programs(ccfg), lambda case: oracle(case, "cte"), max_examples=ctx.n(200, 16000))
     ctx.campaign("merge_focus", gen.programs(mcfg), lambda case: oracle(case, "merge"), max_examples=ctx.n(250, 24000))
